@@ -89,6 +89,9 @@ func evSignature(ev M) string {
 	}
 	a, ok := Argv(ev)
 	if ok {
+		if tz, has := ev["runtz"]; has {
+			return strings.Join(a, "\x00") + fmt.Sprintf("\x00tz=%v", tz)
+		}
 		return strings.Join(a, "\x00")
 	}
 	return fmt.Sprintf("%v|%v|%v", ev["ev"], ev["p"], ev["c"])
